@@ -22,7 +22,7 @@ TECH = {
  'C14': ('independent dense Gaussian-elimination solve of the two ADI half steps (long double) + metamorphic checks (linearity, status independence, scalar vs array); independent eroders on two threads (ASan and ThreadSanitizer)', '5 C14'),
  'C15': ('independent edge-set / Kruskal oracle (weight multiset), Kruskal-vs-Boruvka differential, reused basin-graph objects; libFuzzer campaigns in the thorough tier', '5 C15'),
  'C16': ('snapshot-vs-prefix-graph differential (bit-exact digest) over update histories + refusal checks', '5 C16'),
- 'C17': ('bounded exhaustive enumeration against a reference status composition; filtered iteration in both directions', '5 C17'),
+ 'C17': ('bounded exhaustive enumeration against a reference status composition; filtered iteration in both directions; first iteration / graph construction on a fresh grid shared by several threads (ASan and ThreadSanitizer)', '5 C17'),
  'C18': ('edge-set / cotangent-formula reference oracle in long double on generated triangulations', '5 C18'),
  'C19': ('label-propagation oracle over receivers and dfs order, repeated calls after updates; libFuzzer campaigns in the thorough tier', '5 C19'),
  'C20': ('exhaustive enumeration of operator sequences (length <= 4) against a reference state machine, accepted sequences executed', '5 C20'),
